@@ -299,6 +299,11 @@ pub fn judge_fault_free(plan: &ClientPlan, run: &ClientRun) -> Judged {
             .iter()
             .any(is_traffic);
         let name = op.name();
+        // an exchange of the client's own choosing inside this call (initialisation, set-terminal-id,
+        // system information) that the terminal refused: the model does not predict what the client makes
+        // of that, so "the terminal completed everything the call asked for" cannot be claimed
+        let housekeeping_refused = !matches!(op, OpSpec::Configure { .. })
+            && reqs.iter().any(|r| matches!((r.frame[0], r.frame[1]), (0x06, 0x93) | (0x06, 0x1b) | (0x0f, 0xa1)) && r.abort_sent.is_some());
         let decoded: Vec<Option<&Pkt>> = reqs.iter().map(|r| r.pkt.as_ref()).collect();
         if decoded.iter().any(|d| d.is_none()) {
             j.fail("C08", "undecodable_request", name, "the terminal could not decode a command frame with the reference codec");
@@ -398,7 +403,7 @@ pub fn judge_fault_free(plan: &ClientPlan, run: &ClientRun) -> Judged {
                         // the client now believes the token is open; follow it to avoid cascades
                         open.insert(token.clone(), reqs[0].issued_receipt.unwrap_or(0));
                     }
-                    (OpResult::Err { .. }, true) => {
+                    (OpResult::Err { .. }, true) if !housekeeping_refused => {
                         j.fail("C07", "begin_result", "begin", format!("terminal booked the reservation (receipt {:?}) but begin returned {}", reqs[0].issued_receipt, o.result.class()));
                     }
                     _ => {}
@@ -640,7 +645,7 @@ pub fn judge_fault_free(plan: &ClientPlan, run: &ClientRun) -> Judged {
                         match c_ok {
                             Some(true) => {
                                 let expect_ok = !is_commit || rev.status;
-                                if expect_ok && !o.result.is_ok() {
+                                if expect_ok && !o.result.is_ok() && !housekeeping_refused {
                                     j.fail(
                                         if needs_cleanup && cleanup.eod.end == EndSpec::Abort(0xa0) { "C19" } else { "C07" },
                                         if needs_cleanup && cleanup.eod.end == EndSpec::Abort(0xa0) { "not_ready_not_tolerated" } else { "completed_call_failed" },
